@@ -33,7 +33,7 @@ class GeometricReservoirStorage(ReservoirStorage):
                 self._storage_y.append(y)
         else:
             random_float = random.random()
-            if random_float <= self.constant_probability:
+            if random_float < self.constant_probability:
                 rand_idx = random.randrange(self.size)
                 self._storage_x[rand_idx] = x
                 if self.store_targets:
